@@ -542,6 +542,34 @@ func (s *c06ListStream) WriteMsg(context.Context, proto.Message) error   { retur
 func (s *c06ListStream) Reset() error                                    { return nil }
 func (s *c06ListStream) Close() error                                    { return nil }
 
+// c06Probe: the liveness probe. A fresh honest host completes the handshake and must be registered; one
+// further attempt with another fresh host and doubled deadlines before the node is declared not serving (a
+// loaded machine must not look like a dead node). An environment failure (no host) is inconclusive.
+func c06Probe(svc *Service, foreign *ecdsa.PrivateKey, r *rand.Rand, slow time.Duration) (res int, note string) {
+	for attempt := 1; attempt <= 2; attempt++ {
+		k := c06KeyFrom(r)
+		hon, err := c06RawHost(k)
+		if err != nil {
+			return 2, "raw host: " + err.Error()
+		}
+		limit := time.Duration(attempt) * 15 * time.Second * slow
+		ctx, cancel := context.WithTimeout(context.Background(), limit)
+		err = c06Initiate(ctx, hon, k, foreign, svc, "E2Honest", 0, r)
+		ok := err == nil && c06Until(limit, func() bool { _, reg := svc.peers.isConnected(hon.ID()); return reg })
+		cancel()
+		_ = hon.Close()
+		if ok {
+			return 0, ""
+		}
+		if err != nil {
+			note = fmt.Sprintf("honest peer afterwards (attempt %d): %v", attempt, err)
+		} else {
+			note = fmt.Sprintf("honest peer afterwards was not registered (attempt %d)", attempt)
+		}
+	}
+	return 1, note
+}
+
 // c06RunE2E must only be called in a child process.
 func c06RunE2E(in c06In, slow time.Duration) (obs c06Obs) {
 	defer func() {
@@ -620,16 +648,9 @@ func c06RunE2E(in c06In, slow time.Duration) (obs c06Obs) {
 		time.Sleep(300 * time.Millisecond * slow)
 	}
 	// the node keeps serving other peers: an honest one is admitted afterwards
-	hon, err := c06RawHost(honestKey)
-	if err != nil {
-		return c06Obs{Res: 2, Note: "raw host: " + err.Error()}
-	}
-	defer hon.Close()
-	if err := c06Initiate(ctx, hon, honestKey, foreign, svc, "E2Honest", 0, r); err != nil {
-		return c06Obs{Res: 1, Note: c06Short("honest peer afterwards: " + err.Error() + "; " + note)}
-	}
-	if !c06Until(10*time.Second*slow, func() bool { _, ok := svc.peers.isConnected(hon.ID()); return ok }) {
-		return c06Obs{Res: 1, Note: c06Short("honest peer afterwards was not admitted; " + note)}
+	_ = honestKey
+	if res, pn := c06Probe(svc, foreign, r, slow); res != 0 {
+		return c06Obs{Res: res, Note: c06Short(pn + "; " + note)}
 	}
 	return c06Obs{Res: 0, Note: c06Short(note)}
 }
@@ -663,7 +684,10 @@ func c06RunStress(in c06In, slow time.Duration) (obs c06Obs) {
 	svc.AddStreamHandlers(p2p.StreamDesc{Name: c06StressProto, Version: "1.0.0",
 		Handler: func(context.Context, p2p.Peer, p2p.Stream) error { return nil }})
 	target := peer.AddrInfo{ID: svc.host.ID(), Addrs: svc.host.Addrs()}
-	protoID := protocol.ID("/" + c06StressProto + "/1.0.0")
+	var verCtr atomic.Int64
+	nextProto := func() protocol.ID { // a version string the Service has not seen before, still compatible with 1.0.0
+		return protocol.ID(fmt.Sprintf("/%s/1.0.%d", c06StressProto, verCtr.Add(1)))
+	}
 	ctx, cancel := context.WithTimeout(context.Background(), 60*time.Second*slow+time.Duration(in.DurMs)*time.Millisecond)
 	defer cancel()
 	stop := make(chan struct{})
@@ -741,7 +765,7 @@ func c06RunStress(in c06In, slow time.Duration) (obs c06Obs) {
 					time.Sleep(time.Millisecond)
 					continue
 				}
-				s, err := h.NewStream(ctx, target.ID, protoID)
+				s, err := h.NewStream(ctx, target.ID, nextProto())
 				if err != nil {
 					continue
 				}
@@ -798,7 +822,7 @@ func c06RunStress(in c06In, slow time.Duration) (obs c06Obs) {
 						time.Sleep(time.Millisecond)
 						continue
 					}
-					s, err := h.NewStream(ctx, target.ID, protoID)
+					s, err := h.NewStream(ctx, target.ID, nextProto())
 					if err != nil {
 						continue
 					}
@@ -820,21 +844,127 @@ func c06RunStress(in c06In, slow time.Duration) (obs c06Obs) {
 	close(stop)
 	wg.Wait()
 	note := fmt.Sprintf("handshake streams %d, repeated handshakes %d, protocol streams %d", nHs.Load(), nRedo.Load(), nStreams.Load())
-	hon, err := c06RawHost(honestKey)
-	if err != nil {
-		return c06Obs{Res: 2, Note: "raw host: " + err.Error()}
-	}
-	defer hon.Close()
-	if err := c06Initiate(ctx, hon, honestKey, foreign, svc, "E2Honest", 0, r); err != nil {
-		return c06Obs{Res: 1, Note: c06Short("honest peer afterwards: " + err.Error() + "; " + note)}
-	}
-	if !c06Until(20*time.Second*slow, func() bool { _, ok := svc.peers.isConnected(hon.ID()); return ok }) {
-		return c06Obs{Res: 1, Note: c06Short("honest peer afterwards was not registered; " + note)}
+	_ = honestKey
+	if res, pn := c06Probe(svc, foreign, r, slow); res != 0 {
+		return c06Obs{Res: res, Note: c06Short(pn + "; " + note)}
 	}
 	return c06Obs{Res: 0, Note: note}
 }
 
+// c06RunConcurrent must only be called in a child process: several goroutines call, at once and in a tight
+// loop, code of the Service that peers make it run concurrently -- the block list (the connection gater asks
+// isBlocked for every dial / accept, failed handshakes call blockPeer, the debug API reads BlockedPeers; timed
+// blocks of a nanosecond expire at once) resp. the protocol matcher (one call per negotiated stream, here with
+// version strings never seen before). A runtime fatal error (concurrent map access) ends the child.
+func c06RunConcurrent(in c06In, slow time.Duration) (obs c06Obs) {
+	defer func() {
+		if r := recover(); r != nil {
+			obs = c06Obs{Panic: true, Note: fmt.Sprint(r)}
+		}
+	}()
+	if runtime.GOMAXPROCS(0) < 4 {
+		runtime.GOMAXPROCS(4)
+	}
+	r := rand.New(rand.NewSource(in.Seed))
+	stop := make(chan struct{})
+	var wg sync.WaitGroup
+	var ops atomic.Int64
+	spawn := func(n int, f func(g int, rr *rand.Rand)) {
+		for g := 0; g < n; g++ {
+			wg.Add(1)
+			rr := rand.New(rand.NewSource(in.Seed + int64(g) + 1))
+			go func(g int) {
+				defer wg.Done()
+				for {
+					select {
+					case <-stop:
+						return
+					default:
+					}
+					f(g, rr)
+					ops.Add(1)
+				}
+			}(g)
+		}
+	}
+	if in.Entry == "block-stress" {
+		svc, err := c06NewService(c06KeyFrom(r), true)
+		if err != nil {
+			return c06Obs{Res: 2, Note: "service: " + err.Error()}
+		}
+		defer svc.Close()
+		var ids []peer.ID
+		for i := 0; i < 64; i++ {
+			pk, _ := libp2pcrypto.UnmarshalSecp256k1PrivateKey(crypto.FromECDSA(c06KeyFrom(r)))
+			id, _ := peer.IDFromPublicKey(pk.GetPublic())
+			ids = append(ids, id)
+		}
+		// first half of the time in rounds: every peer gets a timed block that has expired by the time the round
+		// starts, then all goroutines ask about all of them at once (as reconnecting peers make the gater do)
+		// while one lists the blocked peers
+		deadline := time.Now().Add(time.Duration(in.DurMs/2) * time.Millisecond)
+		for time.Now().Before(deadline) {
+			for _, id := range ids {
+				svc.blockPeer(id, time.Nanosecond, "c06 timed")
+			}
+			var rw sync.WaitGroup
+			for g := 0; g < 8; g++ {
+				rw.Add(1)
+				go func(g int) {
+					defer rw.Done()
+					for k := range ids {
+						if g == 7 && k%8 == 0 {
+							_ = svc.BlockedPeers()
+						}
+						_ = svc.isBlocked(ids[(k*(2*g+1)+g)%len(ids)])
+						ops.Add(1)
+					}
+				}(g)
+			}
+			rw.Wait()
+		}
+		// second half: a free mix
+		spawn(8, func(g int, rr *rand.Rand) {
+			id := ids[rr.Intn(len(ids))]
+			switch rr.Intn(6) {
+			case 0:
+				svc.blockPeer(id, time.Duration(1+rr.Intn(1000)), "c06 timed")
+			case 1:
+				if rr.Intn(50) == 0 {
+					svc.blockPeer(id, 0, "c06 for ever")
+				}
+			case 2:
+				_ = svc.BlockedPeers()
+			default:
+				_ = svc.isBlocked(id)
+			}
+		})
+		time.Sleep(time.Duration(in.DurMs/2) * time.Millisecond)
+		close(stop)
+		wg.Wait()
+		return c06Obs{Res: 0, Note: fmt.Sprintf("%d calls", ops.Load())}
+	} else {
+		spawn(8, func(g int, rr *rand.Rand) {
+			v := fmt.Sprintf("/%s/1.%d.%d", c06StressProto, rr.Intn(3), rr.Int63())
+			if rr.Intn(8) == 0 {
+				v = fmt.Sprintf("/%s/%d.x.%d", c06StressProto, rr.Intn(3), rr.Int63())
+			}
+			_, _ = matchProtocolIDWithSemver(v, c06StressProto, fmt.Sprintf("1.%d.0", rr.Intn(3)))
+		})
+	}
+	time.Sleep(time.Duration(in.DurMs) * time.Millisecond)
+	close(stop)
+	wg.Wait()
+	return c06Obs{Res: 0, Note: fmt.Sprintf("%d calls", ops.Load())}
+}
+
 func c06CoqE2E(in c06In) string {
+	switch in.Entry {
+	case "block-stress":
+		return "EBlockStress"
+	case "match-stress":
+		return "EMatchStress"
+	}
 	if in.Entry == "e2e-stress" {
 		return coqApp("EE2EStress", coqBool(in.Registry))
 	}
@@ -894,6 +1024,8 @@ func c06Child(t *testing.T) {
 		switch {
 		case in.Entry == "e2e-stress":
 			obs = c06RunStress(in, time.Duration(slow))
+		case in.Entry == "block-stress" || in.Entry == "match-stress":
+			obs = c06RunConcurrent(in, time.Duration(slow))
 		case strings.HasPrefix(in.Entry, "e2e-"):
 			obs = c06RunE2E(in, time.Duration(slow))
 		default:
@@ -1318,6 +1450,17 @@ func TestVerifC06(t *testing.T) {
 			}
 			return
 		}
+		if in.Entry == "block-stress" || in.Entry == "match-stress" {
+			if in.DurMs <= 0 || in.DurMs > 120000 {
+				return
+			}
+			if !in.Race {
+				children = append(children, pending{class, in})
+			} else if obs, ok := c06RunRace(t, in, e.Slow); ok {
+				emit(class, in, obs, c06CoqE2E(in))
+			}
+			return
+		}
 		if in.Entry == "unmarshal" {
 			emit(class, in, c06RunLocal(in), c06LocalInp(in))
 			return
@@ -1325,7 +1468,7 @@ func TestVerifC06(t *testing.T) {
 		children = append(children, pending{class, in}) // a goroutine that is not the driver's reads / dials
 	}
 	coqInp := func(in c06In) string {
-		if strings.HasPrefix(in.Entry, "e2e-") {
+		if strings.HasPrefix(in.Entry, "e2e-") || in.Entry == "block-stress" || in.Entry == "match-stress" {
 			return c06CoqE2E(in)
 		}
 		return c06LocalInp(in)
@@ -1439,7 +1582,18 @@ func TestVerifC06(t *testing.T) {
 	for k := 0; k < stress; k++ {
 		run("e2e-stress", c06In{Pkg: c06Pkg, Entry: "e2e-stress", Registry: k%2 == 0, Seed: r.Int63(), DurMs: dur, Hammers: 3, Streamers: 3})
 	}
+	// concurrent use of the block list and of the protocol matcher
+	cdur := 1200
+	if full {
+		cdur = 5000
+	}
+	run("block-stress", c06In{Pkg: c06Pkg, Entry: "block-stress", Seed: r.Int63(), DurMs: cdur})
+	run("match-stress", c06In{Pkg: c06Pkg, Entry: "match-stress", Seed: r.Int63(), DurMs: cdur})
 	flush()
+	if full {
+		run("block-stress-race", c06In{Pkg: c06Pkg, Entry: "block-stress", Seed: r.Int63(), DurMs: 3000, Race: true})
+		run("match-stress-race", c06In{Pkg: c06Pkg, Entry: "match-stress", Seed: r.Int63(), DurMs: 3000, Race: true})
+	}
 	if full { // the same workload once under the race detector: a report in repository code counts as a crash
 		run("e2e-stress-race", c06In{Pkg: c06Pkg, Entry: "e2e-stress", Registry: true, Seed: r.Int63(), DurMs: 5000, Hammers: 3, Streamers: 3, Race: true})
 	}
